@@ -65,6 +65,51 @@ pub fn text_upto(limit: usize) -> BoxedStrategy<String> {
         .boxed()
 }
 
+/// text of lengths around the sizes at which an implementation might cap, truncate or switch
+/// representation (powers of two and the protocol limits), in all character flavours
+pub fn long_text() -> BoxedStrategy<String> {
+    let len = prop_oneof![
+        2 => 0usize..=1100,
+        1 => 56usize..=72,
+        1 => 120usize..=136,
+        1 => 248usize..=264,
+        1 => 505usize..=520,
+        1 => 755usize..=770,
+        2 => 980usize..=1040,
+        1 => 2030usize..=2060,
+        1 => 4080usize..=4110,
+    ];
+    (len, 0u8..4, any::<u64>()).prop_map(|(l, f, s)| make_text(l, f, s)).boxed()
+}
+
+pub const ERROR_CODES: [u16; 19] = [300, 301, 400, 401, 403, 420, 437, 438, 440, 441, 442, 443, 486, 487, 500, 508, 699, 642, 399];
+
+/// reason phrases built from the library's own table of default phrases (used as a dictionary
+/// for generation only): the phrase of this or of another code, padded, re-cased, decorated
+pub fn dictionary_reason(code: u16, other: u16, how: u8) -> String {
+    let base = ErrorCode::default_reason_for_code(if how & 0x10 != 0 { other } else { code }).to_string();
+    match how % 9 {
+        0 => base,
+        1 => format!("{} ", base),
+        2 | 3 => {
+            let mut t = base;
+            t.push(' ');
+            while t.len() % 4 != 0 {
+                t.push(' ');
+            }
+            if how % 9 == 3 {
+                t.push_str("    ");
+            }
+            t
+        }
+        4 => base.to_uppercase(),
+        5 => format!("{}\u{0}", base),
+        6 => format!(" {}", base),
+        7 => base.to_lowercase(),
+        _ => format!("{}.", base),
+    }
+}
+
 pub fn small_text() -> BoxedStrategy<String> {
     prop_oneof![
         3 => "[ -~]{0,12}",
@@ -163,14 +208,14 @@ pub fn creds_strategy() -> BoxedStrategy<Creds> {
 }
 
 pub fn bytes_len(len: impl Strategy<Value = usize> + 'static) -> BoxedStrategy<Vec<u8>> {
-    (len, any::<u64>(), 0u8..4)
+    (len, any::<u64>(), prop_oneof![8 => 0u8..4, 1 => Just(4u8)])
         .prop_map(|(l, seed, mode)| fill_bytes(l, seed, mode))
         .boxed()
 }
 
 pub fn fill_bytes(l: usize, seed: u64, mode: u8) -> Vec<u8> {
     let mut x = seed | 1;
-    (0..l)
+    let v = (0..l)
         .map(|i| match mode {
             0 => {
                 x ^= x << 13;
@@ -182,7 +227,56 @@ pub fn fill_bytes(l: usize, seed: u64, mode: u8) -> Vec<u8> {
             2 => 0xffu8,
             _ => (i as u8).wrapping_mul(7).wrapping_add(seed as u8),
         })
-        .collect()
+        .collect::<Vec<u8>>();
+    if mode == 4 {
+        return lookalike_value(l, seed);
+    }
+    v
+}
+
+/// A value whose bytes look like a run of attributes: fake type-length headers of the
+/// integrity / fingerprint / ordinary types followed by filler, laid out from the END of the value
+/// (so that the last 8, 24 or 36 bytes spell a complete FINGERPRINT / MESSAGE-INTEGRITY /
+/// MESSAGE-INTEGRITY-SHA256 attribute). A decoder that loses track of an attribute boundary, or
+/// takes a short cut to "the last attribute", reads such a value as attributes.
+pub fn lookalike_value(l: usize, seed: u64) -> Vec<u8> {
+    let mut x = seed | 1;
+    let mut next = move || {
+        x ^= x << 13;
+        x ^= x >> 7;
+        x ^= x << 17;
+        x
+    };
+    let mut out = vec![0u8; l];
+    let mut end = l;
+    while end >= 4 {
+        let r = next();
+        let (ty, vlen): (u16, usize) = match r % 7 {
+            0 | 1 => (0x8028, 4),
+            2 => (0x0008, 20),
+            3 => (0x001C, 32),
+            4 => (0x8028, 0),
+            5 => (0x0006, ((r >> 8) % 9) as usize),
+            _ => (0x8022, 4),
+        };
+        let padded = (vlen + 3) & !3;
+        if 4 + padded > end {
+            // a bare header with a zero or small length in what is left
+            let start = end - 4;
+            out[start..start + 2].copy_from_slice(&ty.to_be_bytes());
+            out[start + 2..start + 4].copy_from_slice(&(((r >> 16) % 5) as u16).to_be_bytes());
+            end = start;
+            continue;
+        }
+        let start = end - 4 - padded;
+        out[start..start + 2].copy_from_slice(&ty.to_be_bytes());
+        out[start + 2..start + 4].copy_from_slice(&(vlen as u16).to_be_bytes());
+        for b in &mut out[start + 4..start + 4 + vlen] {
+            *b = next() as u8;
+        }
+        end = start;
+    }
+    out
 }
 
 // ---------------------------------------------------------------------------------------------
@@ -242,19 +336,14 @@ pub fn fields_strategy(kind: Kind) -> BoxedStrategy<Fields> {
             1 => text_upto(255).prop_map(Fields::Text),
         ]
         .boxed(),
-        Kind::ErrorCode => (
-            prop_oneof![
-                3 => 300u16..700,
-                1 => Just(300u16),
-                1 => Just(699u16),
-                1 => Just(399u16),
-                1 => Just(400u16),
-                1 => Just(420u16),
-            ],
-            text_upto(763),
-        )
-            .prop_map(|(code, reason)| Fields::ErrorCode { code, reason })
-            .boxed(),
+        Kind::ErrorCode => prop_oneof![
+            1 => (0usize..ERROR_CODES.len(), 0usize..ERROR_CODES.len(), any::<u8>()).prop_map(|(i, j, how)| Fields::ErrorCode {
+                code: ERROR_CODES[i],
+                reason: dictionary_reason(ERROR_CODES[i], ERROR_CODES[j], how),
+            }),
+            3 => error_code_plain(),
+        ]
+        .boxed(),
         Kind::UnknownAttributes => vec(any::<u16>(), 0..6).prop_map(Fields::Types).boxed(),
         Kind::XorMappedAddress | Kind::AlternateServer => sockaddr_strategy().prop_map(Fields::Addr).boxed(),
         Kind::PasswordAlgorithm => (1u16..=2).prop_map(Fields::Algo).boxed(),
@@ -275,6 +364,22 @@ pub fn fields_strategy(kind: Kind) -> BoxedStrategy<Fields> {
     }
 }
 
+fn error_code_plain() -> BoxedStrategy<Fields> {
+    (
+        prop_oneof![
+            3 => 300u16..700,
+            1 => Just(300u16),
+            1 => Just(699u16),
+            1 => Just(399u16),
+            1 => Just(400u16),
+            1 => Just(420u16),
+        ],
+        text_upto(763),
+    )
+        .prop_map(|(code, reason)| Fields::ErrorCode { code, reason })
+        .boxed()
+}
+
 pub fn raw_len() -> BoxedStrategy<usize> {
     prop_oneof![
         5 => 0usize..=9,
@@ -283,6 +388,34 @@ pub fn raw_len() -> BoxedStrategy<usize> {
         2 => 0usize..=763,
     ]
     .boxed()
+}
+
+/// Type codes that collide with one another (and with the built-in codes) in the usual ways a
+/// table, bitmap or hash keyed on part of the value conflates entries: equal modulo 32 / 64 / 128 /
+/// 256, equal up to the comprehension bit, byte-swapped. Drawn from a small pool so that two members of
+/// one family meet in the same message or the same builder.
+pub fn alias_type() -> BoxedStrategy<u16> {
+    let bases = [0x0000u16, 0x0001, 0x0006, 0x0008, 0x001C, 0x0020, 0x0025, 0x7fff, 0x8000, 0x8022, 0x8028, 0x802a, 0xffff];
+    (0usize..13, 0u8..12)
+        .prop_map(move |(i, how)| alias_of(bases[i], how))
+        .boxed()
+}
+
+pub fn alias_of(base: u16, how: u8) -> u16 {
+    match how % 12 {
+        0 => base,
+        1 => base.wrapping_add(64),
+        2 => base.wrapping_add(32),
+        3 => base.wrapping_add(128),
+        4 => base.wrapping_add(256),
+        5 => base ^ 0x8000,
+        6 => base.swap_bytes(),
+        7 => base.wrapping_sub(64),
+        8 => base.wrapping_add(0x1000),
+        9 => base.wrapping_add(63),
+        10 => base.wrapping_add(65),
+        _ => base.wrapping_add(0x4000),
+    }
 }
 
 /// an unknown (not built-in) attribute type, both comprehension-required and optional
@@ -300,7 +433,7 @@ pub fn unknown_type() -> BoxedStrategy<u16> {
         Just(0xffffu16),
         (0usize..19, prop_oneof![Just(1i32), Just(-1i32)]).prop_map(|(i, d)| (crate::refattrs::ALL_KINDS[i].code() as i32 + d) as u16),
     ];
-    prop_oneof![4 => any::<u16>(), 1 => boundary]
+    prop_oneof![4 => any::<u16>(), 1 => boundary, 1 => alias_type()]
         .prop_map(|t| if Kind::from_code(t).is_some() { t ^ 0x0100 } else { t })
         .prop_filter("built-in", |t| Kind::from_code(*t).is_none())
         .boxed()
@@ -313,6 +446,23 @@ pub fn unknown_type() -> BoxedStrategy<u16> {
 pub fn near_valid_value(kind: Kind) -> BoxedStrategy<Vec<u8>> {
     let tid = 0x0102_0304_0506_0708_090a_0b0cu128;
     let base = fields_strategy(kind).prop_map(move |f| refattrs::encode(kind, &f, tid).unwrap_or_default());
+    // text attributes: also text of any length (beyond the limits too: what the decoder does with
+    // it, and how it is formatted, is part of what must not panic)
+    let base = match kind {
+        Kind::Username | Kind::Realm | Kind::Nonce | Kind::Software | Kind::AlternateDomain => {
+            prop_oneof![3 => base, 2 => long_text().prop_map(|t| t.into_bytes())].boxed()
+        }
+        Kind::ErrorCode => prop_oneof![
+            4 => base,
+            1 => (long_text(), 3u8..=6, 0u8..100).prop_map(|(t, class, number)| {
+                let mut v = vec![0, 0, class, number];
+                v.extend_from_slice(t.as_bytes());
+                v
+            }),
+        ]
+        .boxed(),
+        _ => base.boxed(),
+    };
     (base.clone(), base, 0u8..10, any::<u16>(), any::<u8>())
         .prop_map(|(mut v, second, how, a, b)| {
             match how {
@@ -655,6 +805,9 @@ pub enum WireAttr {
     Sha256 { correct: bool, len: u8 },
     /// FINGERPRINT with the correct CRC or with `xor` applied to it
     Fp { xor: u32 },
+    /// FINGERPRINT carrying this value whatever the CRC is (magic values: 0, all ones, the XOR
+    /// constant "STUN", ...)
+    FpAbs { value: u32 },
 }
 
 #[derive(Debug, Clone, PartialEq, Eq, Hash, Serialize, Deserialize)]
@@ -698,7 +851,7 @@ impl WireSpec {
                     if *correct {
                         refstun::push_mi(&mut buf, &key)
                     } else {
-                        let v = fill_bytes(20, buf.len() as u64, 0);
+                        let v = fill_bytes(20, buf.len() as u64 ^ self.tid as u64, if (self.tid >> 3) & 1 == 0 { 0 } else { 4 });
                         refstun::push_tlv(&mut buf, refstun::T_MI, &v, 0)
                     }
                 }
@@ -714,7 +867,7 @@ impl WireSpec {
                         v.resize(len, 0x5a);
                         refstun::push_tlv(&mut buf, refstun::T_SHA256, &v, 0)
                     } else {
-                        let v = fill_bytes(len, buf.len() as u64, 0);
+                        let v = fill_bytes(len, buf.len() as u64 ^ self.tid as u64, if (self.tid >> 3) & 1 == 0 { 0 } else { 4 });
                         refstun::push_tlv(&mut buf, refstun::T_SHA256, &v, 0)
                     }
                 }
@@ -723,6 +876,7 @@ impl WireSpec {
                     let v = refstun::fingerprint_value(&buf, start) ^ xor;
                     refstun::push_tlv(&mut buf, refstun::T_FP, &v.to_be_bytes(), 0)
                 }
+                WireAttr::FpAbs { value } => refstun::push_tlv(&mut buf, refstun::T_FP, &value.to_be_bytes(), 0),
             }
         }
         refstun::set_len(&mut buf);
@@ -781,14 +935,19 @@ pub fn wire_plain() -> BoxedStrategy<WireAttr> {
         .boxed()
 }
 
+/// FINGERPRINT values with a special meaning somewhere in the computation: zero, all ones, the
+/// XOR constant and its complement, byte-swapped constant, the CRC-32 residue
+pub const FP_MAGIC: [u32; 8] = [0, 0xffff_ffff, 0x5354_554e, !0x5354_554e, 0x4e55_5453, 0xdebb_20e3, 0x2144_df1c, 1];
+
 pub fn wire_attr() -> BoxedStrategy<WireAttr> {
     prop_oneof![
         8 => wire_plain(),
         3 => any::<bool>().prop_map(|correct| WireAttr::Mi { correct }),
         3 => (any::<bool>(), prop_oneof![4 => Just(32u8), 2 => (4u8..=8).prop_map(|k| k * 4), 1 => 0u8..=40])
             .prop_map(|(correct, len)| WireAttr::Sha256 { correct, len }),
-        3 => prop_oneof![4 => Just(0u32), 1 => any::<u32>(), 1 => (0u32..32).prop_map(|b| 1u32 << b)]
+        3 => prop_oneof![4 => Just(0u32), 1 => any::<u32>(), 1 => (0u32..32).prop_map(|b| 1u32 << b), 1 => Just(refstun::FP_XOR), 1 => Just(!refstun::FP_XOR)]
             .prop_map(|xor| WireAttr::Fp { xor }),
+        1 => (0usize..FP_MAGIC.len()).prop_map(|i| WireAttr::FpAbs { value: FP_MAGIC[i] }),
         // tail-typed attributes with unusual lengths
         1 => (prop_oneof![Just(refstun::T_MI), Just(refstun::T_SHA256), Just(refstun::T_FP)], bytes_len(0usize..=40))
             .prop_map(|(ty, v)| WireAttr::Plain { ty, value: Hex(v), pad: 0 }),
